@@ -1,6 +1,7 @@
 import PybropsModel.J
 import PybropsModel.Model.Selection
 import PybropsModel.Model.SelectionSpec
+import PybropsModel.Model.SelectionObj
 import PybropsModel.Model.Coancestry
 open Lean
 
@@ -94,6 +95,9 @@ def trans (j : Json) : J.R (Trans Rat) := do
   | "dot" => pure (.dot (← J.field j "w" (J.list J.rat)))
   | "empty" => pure .empty
   | "decn_sum_eq" => pure (.decnSumEq (← J.field j "target" J.rat))
+  | "slice" => pure .slice
+  | "penalty" => pure (.penalty (← J.field j "thr" J.rat))
+  | "affine" => pure (.affine (← J.field j "m" J.rat) (← J.field j "c" J.rat))
   | _ => J.fail s!"unknown transformation {k}"
 
 def opEvalfn : J.Op := fun j => do
@@ -107,6 +111,88 @@ def opEvalfn : J.Op := fun j => do
   let te ← J.field j "eqcv_trans" trans
   let (o, i, e) := evalfn ow iw ew to ti te x l
   pure <| J.obj [("obj", J.ofList J.ofRat o), ("ineqcv", J.ofList J.ofRat i), ("eqcv", J.ofList J.ofRat e)]
+
+def evalCfg (j : Json) : J.R (EvalCfg Rat) := do
+  pure { objWt := ← J.field j "obj_wt" (J.list J.rat), ineqWt := ← J.field j "ineqcv_wt" (J.list J.rat),
+         eqWt := ← J.field j "eqcv_wt" (J.list J.rat), tObj := ← J.field j "obj_trans" trans,
+         tIneq := ← J.field j "ineqcv_trans" trans, tEq := ← J.field j "eqcv_trans" trans }
+
+/-- Spec oracle of evalfn, `Selection.evalOk`, on the three vectors the implementation reported for decision `x`
+    with latent vector `latent` (`abs` is supplied by the harness: float cancellation in sums) -/
+def opSpecEvalfn : J.Op := fun j => do
+  let cfg ← evalCfg j
+  let x ← J.field j "x" (J.list J.rat)
+  let l ← J.field j "latent" (J.list J.rat)
+  let o ← J.field j "obj" (J.list J.rat)
+  let i ← J.field j "ineqcv" (J.list J.rat)
+  let e ← J.field j "eqcv" (J.list J.rat)
+  let rel ← J.fieldD j "rel" J.rat (mkRat 1 (10 ^ 12))
+  let abs_ ← J.fieldD j "abs" J.rat (mkRat 1 (10 ^ 14))
+  let (wo, wi, we) := evalfn cfg.objWt cfg.ineqWt cfg.eqWt cfg.tObj cfg.tIneq cfg.tEq x l
+  pure <| J.obj [("ok", J.ofBool (evalOk rel abs_ cfg x l o i e)),
+    ("bad", J.ofList J.ofStr ((if vecClose rel abs_ wo o then [] else ["obj"]) ++
+      (if vecClose rel abs_ wi i then [] else ["ineqcv"]) ++ (if vecClose rel abs_ we e then [] else ["eqcv"]))),
+    ("want", J.obj [("obj", J.ofList J.ofRat wo), ("ineqcv", J.ofList J.ofRat wi), ("eqcv", J.ofList J.ofRat we)])]
+
+/-! ### problem objects with state (Model/SelectionObj.lean) -/
+
+def tfOp (j : Json) : J.R (TfOp Rat) := do
+  match ← J.field j "set" J.str with
+  | "geno" => pure (.setGeno (← J.field j "value" (J.mat J.rat)))
+  | "ploidy" => pure (.setPloidy (← J.field j "value" J.nat))
+  | "mkrwt" => pure (.setMkrwt (← J.field j "value" (J.mat J.rat)))
+  | "tfreq" => pure (.setTfreq (← J.field j "value" (J.mat J.rat)))
+  | s => J.fail s!"unknown field {s}"
+
+/-- an allele-frequency problem object built by its constructor, a history of assignments, then `latentfn(S)`
+    of the class `cls` reading the stored masks -/
+def opTfHistory : J.Op := fun j => do
+  let o := TfObj.new (← J.field j "geno" (J.mat J.rat)) (← J.field j "ploidy" J.nat)
+    (← J.field j "mkrwt" (J.mat J.rat)) (← J.field j "tfreq" (J.mat J.rat))
+  let ops ← J.field j "ops" (J.list tfOp)
+  let S ← J.field j "S" (J.list J.nat)
+  let o := o.run ops
+  match ← J.field j "cls" J.str with
+  | "pau" => pure (J.ofList J.ofRat (o.latentPau S))
+  | "pafd" => pure (J.ofList J.ofRat (o.latentPafd S))
+  | "mogs" => pure (J.ofList J.ofRat (o.latentMogs S))
+  | s => J.fail s!"unknown class {s}"
+
+/-- `numpy.unique(familyid, return_inverse = True)` -/
+def opFamilyIndex : J.Op := fun j => do
+  let r := uniqueInverse (← J.field j "ids" (J.list J.nat))
+  pure <| J.obj [("family", J.ofList J.ofNat r.1), ("familyix", J.ofList J.ofNat r.2)]
+
+def pOp (j : Json) : J.R (Nat × POp Rat) := do
+  let i ← J.field j "i" J.nat
+  match ← J.field j "set" J.str with
+  | "crit" => pure (i, .setCrit (← J.field j "value" crit))
+  | "obj_wt" => pure (i, .setObjWt (← J.field j "value" (J.list J.rat)))
+  | "ineqcv_wt" => pure (i, .setIneqWt (← J.field j "value" (J.list J.rat)))
+  | "eqcv_wt" => pure (i, .setEqWt (← J.field j "value" (J.list J.rat)))
+  | "obj_trans" => pure (i, .setObjTrans (← J.field j "value" trans))
+  | "ineqcv_trans" => pure (i, .setIneqTrans (← J.field j "value" trans))
+  | "eqcv_trans" => pure (i, .setEqTrans (← J.field j "value" trans))
+  | s => J.fail s!"unknown field {s}"
+
+/-- several problem objects, a history of assignments naming their targets, then `latentfn` / `evalfn` of every
+    object on its own decision (`Store.run`, `Problem.query`) -/
+def opStoreHistory : J.Op := fun j => do
+  let parts ← J.field j "problems" (J.list fun pj => do
+    let c ← crit pj
+    let cfg ← evalCfg pj
+    let d ← decn pj
+    pure ((⟨c, cfg⟩ : Problem Rat), d))
+  let ops ← J.field j "ops" (J.list pOp)
+  let st := Store.run (parts.map Prod.fst) ops
+  let outs ← (List.zip st (parts.map Prod.snd)).mapM fun (p, d) => do
+    let x : List Rat := match d with | .subset S => S.map fun (i : Nat) => ((i : Nat) : Rat) | .vec x => x
+    match p.query eps d x with
+    | none => J.fail "unsupported encoding"
+    | some (l, o, i, e) =>
+      pure (J.obj [("latent", J.ofList J.ofRat l), ("obj", J.ofList J.ofRat o), ("ineqcv", J.ofList J.ofRat i),
+                   ("eqcv", J.ofList J.ofRat e)])
+  pure (Json.arr outs.toArray)
 
 /-! ### factory data paths -/
 
@@ -205,6 +291,7 @@ def opLaLatent : J.Op := fun j => do
 
 def ops : List (String × J.Op) :=
   [("c05.latent", opLatent), ("c05.spec_latent", opSpecLatent), ("c05.evalfn", opEvalfn),
+   ("c05.spec_evalfn", opSpecEvalfn), ("c05.tf_history", opTfHistory), ("c05.store_history", opStoreHistory), ("c05.family_index", opFamilyIndex),
    ("c05.bvdata", opBvData), ("c05.wgebv", opWgebv), ("c05.guard", opGuard), ("c05.calcV", opCalcV), ("c05.xmap", opXmap),
    ("c05.uc", opUc), ("c05.haplomat", opHaplomat), ("c05.ohvmat", opOhvmat), ("c05.ohvmat_chunked", opOhvmatChunked), ("c05.embvmat", opEmbvMat), ("c05.embv", opEmbv),
    ("c05.spec_factor", opSpecFactor), ("c05.kinship", opKinship), ("c05.la_step", opLaStep),
